@@ -264,6 +264,10 @@ inductive Op where
       below the limit), a command substitution `: "$(:)"` (the same), a here-document on a regular built-in
       (`probe THD <<E`: the redirection engine saves fd 0 at ≥ 10 and opens a temporary file) -/
   | pl | cs | hd
+  /-- a three-member pipeline started while fd 1 is CLOSED (`exec 9>&1 1>&-; probe TPC | cat | cat >&9; exec 1>&9 9>&-`): the
+      first pipe's read end then IS descriptor 1, so the middle member runs the corner of `move_to_stdin_stdout` that first
+      moves the previous end away with `dup(1, 0)`; the marker travels through both pipes -/
+  | plc
   deriving DecidableEq, Repr
 
 /-- sorted insertion into the list of enabled options -/
@@ -370,7 +374,8 @@ def normalizePath (p : String) : String := renderComps (normalizeComps [] (pathC
 
 /-- the directories of the file system the harness sets up: `/`, `/d1`, `/d1/s`, `/d2` -/
 def dirExists (p : String) : Bool :=
-  let cs := (p.splitOn "/").filter (fun c => c ≠ "" ∧ c ≠ ".")
+  -- `resolve_existing_file` walks the components from the root: `.` stays, `..` goes to the parent (the root is its own)
+  let cs := (normalizeComps [] (pathComps p)).filter (fun c => c ≠ "/")
   cs == [] || cs == ["d1"] || cs == ["d2"] || cs == ["d1", "s"]
 
 /-! ## `Process` methods (`yash-env/src/system/virtual/process.rs`) -/
@@ -673,7 +678,12 @@ def applyOpCore (sh : Shell) (op : Op) : Shell :=
   -- the expansion error of a command substitution that cannot open its pipe ends the shell with 2
   | .cs => if pipeOk env.system then sh else exitShell sh 2
   | .hd => if hereDocOk env.system then { sh with events := sh.events ++ ["THD"] } else sh
-  | .shift => { sh with env := { env with variables := { env.variables with params := env.variables.params.drop 1 } } }
+  | .plc => { sh with events := sh.events ++ ["TPC"] }
+  -- `shift` with no positional parameter left is an error of the special built-in: the shell exits with status 1
+  -- after its EXIT trap
+  | .shift =>
+    if env.variables.params.isEmpty then exitShell sh 1
+    else { sh with env := { env with variables := { env.variables with params := env.variables.params.drop 1 } } }
   | .args xs => { sh with env := { env with variables := { env.variables with params := xs } } }
   | .cd d =>
     let old := ((env.variables.vars.find "PWD").map (·.value)).getD ""
